@@ -21,11 +21,11 @@ class C16(Check):
             'own local frame. Non-trivial: >=1 ray clipped at an interior surface and >=1 absorbing medium or coating. '
             'Distinct = distinct (spec, bundle) hashes.')
     assumptions = ['polarization off (unpolarised SimpleCoating only); Fresnel coatings belong to C17',
-                   'rays within 1e-9 relative of an aperture edge are not judged (either side accepted)',
+                   'rays within 1e-9 r_max of an aperture edge (inner or outer) are not judged (either side accepted)',
                    'non-finite rays are not judged here (C02)']
 
     def budget(self, tier):
-        return (150, 8) if tier == 'quick' else (3000, 16)
+        return (300, 8) if tier == 'quick' else (3000, 16)
 
     def strategy(self, tier):
         return st.fixed_dictionaries(dict(spec=GL.lens_spec('intensity'), rays=ray_bundle(), wl=st.integers(0, 3)))
@@ -79,7 +79,9 @@ class C16(Check):
                 r2 = Pl[0] ** 2 + Pl[1] ** 2
                 rmax2, rmin2 = ap['r_max'] ** 2, ap.get('r_min', 0.0) ** 2
                 out_ = (r2 > rmax2) | (r2 < rmin2)
-                undecided = (np.abs(r2 - rmax2) <= 1e-9 * rmax2) | ((rmin2 > 0) & (np.abs(r2 - rmin2) <= 1e-9 * rmin2))
+                rr = np.sqrt(r2)
+                undecided = (np.abs(rr - ap['r_max']) <= 1e-9 * ap['r_max']) | \
+                    ((rmin2 > 0) & (np.abs(rr - ap.get('r_min', 0.0)) <= 1e-9 * ap['r_max']))
                 I = np.where(out_, 0.0, I)
                 if np.any(out_) and k <= K:
                     clipped_interior = True
